@@ -78,6 +78,31 @@ Proof.
 Qed.
 Print Assumptions C07_library_reads_the_environment.
 
+(* Which directories COND_DEPS lists (TaskType.get_deps_output_paths, the loop regenerated from the sources on every run:
+   Gen.Generated.gen_deps_paths_step): for EVERY list of dependencies -- [outs] gives, per declared dependency in the
+   order of `deps`, its current output directory, None for an experiment that has no version at all -- the list handed
+   to the task is exactly the directories that exist, in the declared order, one entry per dependency: nothing is
+   dropped, merged, de-duplicated or reordered -- in particular two dependencies whose directories have the same LAST
+   component (//left:data and //right:data: .../left/data.task and .../right/data.task) both appear, and so do two
+   dependencies with the very same directory string.  When every dependency has an output the list has the length of
+   `deps`.  (Seed C20/i "de-duplicated" the list by the directory's name.) *)
+Theorem C07_cond_deps_lists_every_dependency_output : forall outs : list (option str),
+  deps_output_paths outs = flat_map (fun o => match o with Some p => [p] | None => [] end) outs /\
+  (forall ps, outs = map Some ps -> deps_output_paths outs = ps) /\
+  (forall k p, nth_error outs k = Some (Some p) -> In p (deps_output_paths outs)).
+Proof.
+  intro outs.
+  assert (E : deps_output_paths outs = some_paths outs) by (apply deps_output_paths_spec; vm_compute; reflexivity).
+  split; [exact E|]. split.
+  - intros ps ->. rewrite E. unfold some_paths. clear E. induction ps as [|q ps IH]; [reflexivity|]. simpl. f_equal. exact IH.
+  - intros k p Hk. rewrite E. unfold some_paths. apply in_flat_map. exists (Some p). split; [exact (nth_error_In _ _ Hk)|left; reflexivity].
+Qed.
+Print Assumptions C07_cond_deps_lists_every_dependency_output.
+
+Example C07_same_named_dependencies_both_listed :
+  deps_output_paths [Some [108; 47; 100]; None; Some [114; 47; 100]; Some [108; 47; 100]] = [[108; 47; 100]; [114; 47; 100]; [108; 47; 100]].
+Proof. vm_compute. reflexivity. Qed.
+
 (* the process: bash (shell=True with executable /bin/bash) runs the command line of C07_cmdline in the directory of the
    task's COND file, in a session of its own (read off the Popen call of the sources on every run) *)
 Theorem C07_started_by_bash_in_the_cond_directory : forall run args opts root i sp,
